@@ -10,12 +10,13 @@ import math
 
 import numpy as np
 
+from . import c13_util as U
 from . import common as C
 from . import geomgen as G
 
 ANCHOR_FILES = ['spatialpandas/geometry/_algorithms/bounds.py',
                 'spatialpandas/geometry/baselist.py', 'spatialpandas/geometry/basefixed.py',
-                'spatialpandas/geoseries.py']
+                'spatialpandas/geoseries.py', 'spatialpandas/dask.py']
 TRUSTED = ['numpy slicing / boolean assignment as transcribed in Model/Arrow.v, Model/Bounds.v',
            'pyarrow buffers() export (harness/common.py export_listarr/export_fixarr)']
 
@@ -164,6 +165,10 @@ def run(rep):
                           {**metas[i], 'buffers': cases[i], 'impl': ress[i], 'model': model})
     rep.extra['agreement_checks'] = nagree
     large_arrays(rep)
+    # coordinates over the whole range of all ten subtypes (same model, exact dyadic scaling) and
+    # the Dask entry points on frames of every provenance: see harness/c13_util.py
+    U.wide_arrays(rep, tier, agree, LA_FN, FA_FN, IMPORTS, RES_TY)
+    U.dask_provenances(rep, tier)
 
 
 def large_arrays(rep):
@@ -253,20 +258,40 @@ def agree(rep, arr, meta):
                       {**meta, 'array_total_bounds': list(tb), 'series_total_bounds': list(s.total_bounds)})
     if len(arr) > 0:
         for nparts in (1, min(3, len(arr))):
-            ds = dd.from_pandas(s, npartitions=nparts)
-            dtb = ds.total_bounds
-            dtb = dtb.compute() if hasattr(dtb, 'compute') else dtb
-            db = ds.bounds.compute()
+            try:
+                ds = dd.from_pandas(s, npartitions=nparts)
+                dtb = ds.total_bounds
+                dtb = dtb.compute() if hasattr(dtb, 'compute') else dtb
+                db = ds.bounds.compute()
+            except Exception as e:
+                kind, st = meta.get('kind', '?'), str(arr.numpy_dtype)
+                rep.violation(U.dask_raise_signature(kind, st, arr, e, 'from_pandas'),
+                              f'the Dask versions of bounds / total_bounds of a {kind}[{st}] series cannot be '
+                              f'obtained: {e!r}'[:300],
+                              {**meta, 'npartitions': nparts, 'error': repr(e)[:300]})
+                break
             if not (_same(dtb, tb) and _same(db.values, b)):
                 rep.violation('agree:dask', 'Dask bounds/total_bounds differ from the array\'s',
                               {**meta, 'npartitions': nparts, 'array_total_bounds': list(tb),
                                'dask_total_bounds': list(np.asarray(dtb, dtype=float))})
         if not np.isnan(np.asarray(b, dtype=float)).any():
             fresh = type(arr)(arr.data, dtype=arr.dtype)
+            tbf = [float(v) for v in tb]
+            if any(tbf[d] == tbf[d + 2] and tbf[d] + 1.0 == tbf[d] for d in (0, 1)):
+                # an extent of width 0 at |coordinate| >= 2^53: the index cannot be built
+                # (the +1 widening of _distances_from_bounds is absorbed, _data2coord divides by
+                # 0.0 -> ZeroDivisionError).  Modelled and compared by C08 (FloatData2Coord.v);
+                # not a statement about bounds.
+                rep.count('sindex-not-buildable:zero-extent-beyond-2^53')
+                return _rows_in_total(rep, b, tb, meta)
             stb = fresh.sindex.total_bounds
             if not _same(stb, tb):
                 rep.violation('agree:sindex', 'spatial index total_bounds differs from the array\'s',
                               {**meta, 'array_total_bounds': list(tb), 'sindex_total_bounds': list(stb)})
+    _rows_in_total(rep, b, tb, meta)
+
+
+def _rows_in_total(rep, b, tb, meta):
     # every element inside its bounds, every row inside total_bounds (finite ones)
     bb = np.asarray(b, dtype=float)
     if len(bb):
@@ -293,6 +318,14 @@ def replay(rep, rp):
             return float(e)
         return e
     els = un(rp['elements'])
+    if rp.get('dask'):
+        spec = {**{k: rp[k] for k in ('kind', 'subtype', 'npartitions', 'pack_npartitions', 'p', 'wide')},
+                'elements': els}
+        rep.tier_run = 'quick'
+        U.dask_provenances(rep, 'quick', specs=[spec], which=[rp['provenance']])
+        for v in rep.violations:
+            print(v['signature'], '-', v['what'])
+        return not rep.violations
     arr = G.make_array(kind, els, st)
     for d in rp.get('derivation', []):
         if d[0] == 'warm':
@@ -312,13 +345,19 @@ def replay(rep, rp):
         elif d[0] == 'filltake':
             arr.bounds
             arr = arr.take(np.array(d[1], dtype='int64'), allow_fill=True)
-    res = impl_all(arr)
+    # exact dyadic scaling (k = 0 for the small-integer cases): numbers below are v * 2^k
+    rec, k = U.export_exact(arr, kind)
+    res = U.impl_all_exact(arr, k)
     if isinstance(res, tuple):
-        print('impl raised', res)
+        print('impl raised / reports a number that is not a coordinate:', res)
         return False
-    rec = C.export_fixarr(arr) if kind == 'point' else C.export_listarr(arr)
     fn, ty = (FA_FN, 'fixarr') if kind == 'point' else (LA_FN, 'listarr')
     bad = C.coq_mismatches(IMPORTS, fn, ty, RES_TY, [rec], [res])
+    print('scale: 2^%d' % k)
     print('impl :', res)
     print('model:', C.coq_eval(IMPORTS, f'({fn}) {C.coq(rec)}'))
-    return not bad
+    nv = len(rep.violations)
+    agree(rep, arr, {'kind': kind, 'subtype': st})
+    for v in rep.violations[nv:]:
+        print(v['signature'], '-', v['what'])
+    return not bad and len(rep.violations) == nv
